@@ -56,6 +56,8 @@ pub struct World {
     pub rumor_ids: HashMap<EventId, usize>,
     pub nids: HashMap<[u8; 32], usize>,
     pub gids: HashMap<Vec<u8>, usize>,
+    /// C05 identity probe: crafted stand-alone Update proposals by event number (what a modified client keeps after decrypting)
+    pub qprops: HashMap<usize, (openmls::prelude::QueuedProposal, openmls::ciphersuite::hash_ref::ProposalRef)>,
 }
 
 fn u(s: &str) -> u64 {
@@ -91,6 +93,7 @@ impl World {
             rumor_ids: HashMap::new(),
             nids: HashMap::new(),
             gids: HashMap::new(),
+            qprops: HashMap::new(),
         }
     }
 
@@ -641,6 +644,116 @@ impl World {
                     None => "err:Craft".into(),
                 }
             }
+            "leaves" => {
+                // leaves <i>: client i's ratchet tree as mdk reports it (`get_ratchet_tree_info`): `leaf:identity,…` (identity = client number, `x` = nobody's)
+                let i = u(t[1]) as usize;
+                let gid = match self.clients[i].gid.clone() { Some(g) => g, None => return "err:NoGroup".into() };
+                let mdk = self.clients[i].mdk.take().unwrap();
+                let r = with_mdk!(&mdk, |m| m.get_ratchet_tree_info(&gid));
+                self.clients[i].mdk = Some(mdk);
+                match r {
+                    Ok(info) => {
+                        let l: Vec<String> = info.leaf_nodes.iter().map(|n| {
+                            let who = hex::decode(&n.credential_identity).ok().and_then(|b| PublicKey::from_slice(&b).ok()).map(|pk| self.who(&pk)).unwrap_or_else(|| "bad".into());
+                            format!("{}:{}", n.index, who)
+                        }).collect();
+                        format!("leaves {}", if l.is_empty() { "-".into() } else { l.join(",") })
+                    }
+                    Err(e) => err_kind(&e),
+                }
+            }
+            "advid" => {
+                // advid <i> <mode> <what> <tsoff>: member i crafts with OpenMLS directly (C05 identity correspondence, vlib/c05ident.py)
+                //   path  <same|other|c<j>|bad>   a COMMIT without proposals whose update path carries a FRESH signature key and the
+                //                                 identity: its own / a fresh foreign one / client j's / 31 bytes that are no key
+                //   pathk <same|other|c<j>>       the same with the OLD signature key kept (only the credential's identity changes)
+                //   uprop <same|other|c<j>>       a stand-alone Update PROPOSAL (old signature key) with that identity; the queued
+                //                                 proposal is kept under its event number for `commitref`
+                //   commitref <ev>                a COMMIT that carries the Update proposal of event <ev> BY REFERENCE
+                // `same` keeps the pending commit (and stores the fresh signer) so that `merge <i>` applies it; every other mode
+                // discards the crafter's pending commit.  Proposals are taken out of the crafter's store again.
+                use openmls::prelude::{BasicCredential, CredentialWithKey, LeafNodeParameters, MlsGroup, NewSignerBundle};
+                use openmls_basic_credential::SignatureKeyPair;
+                use tls_codec::Serialize as _;
+                let i = u(t[1]) as usize;
+                let mode = t[2];
+                let what = t[3];
+                let gid = match self.clients[i].gid.clone() { Some(g) => g, None => return "err:NoGroup".into() };
+                let ts = self.t0 + u(t[4]);
+                let own_pk = self.clients[i].keys.public_key();
+                let ident: Vec<u8> = if what == "same" { own_pk.to_bytes().to_vec() }
+                    else if what == "other" { Keys::generate().public_key().to_bytes().to_vec() }
+                    else if what == "bad" { vec![7u8; 31] }
+                    else if let Some(j) = what.strip_prefix('c') { self.clients[u(j) as usize].keys.public_key().to_bytes().to_vec() }
+                    else { vec![] };
+                let kept: Option<(openmls::prelude::QueuedProposal, openmls::ciphersuite::hash_ref::ProposalRef)> = if mode == "commitref" { self.qprops.get(&(u(what) as usize)).cloned() } else { None };
+                let mdk = self.clients[i].mdk.take().unwrap();
+                let r: Option<(Event, Option<(openmls::prelude::QueuedProposal, openmls::ciphersuite::hash_ref::ProposalRef)>)> = with_mdk!(&mdk, |m| (|| {
+                    let storage = m.provider.storage();
+                    let rec = m.get_group(&gid).ok()??;
+                    let mut mg = MlsGroup::load(storage, gid.inner()).ok()??;
+                    let own = mg.own_leaf()?.clone();
+                    let signer = SignatureKeyPair::read(storage, own.signature_key().as_slice(), mg.ciphersuite().signature_algorithm())?;
+                    let sec = mg.export_secret(m.provider.crypto(), "nostr", b"nostr", 32).ok()?;
+                    let mut qp_out = None;
+                    let bytes = match mode {
+                        "path" => {
+                            let new_signer = SignatureKeyPair::new(mg.ciphersuite().signature_algorithm()).ok()?;
+                            let cwk = CredentialWithKey { credential: BasicCredential::new(ident.clone()).into(), signature_key: new_signer.public().into() };
+                            let bundle = mg
+                                .self_update_with_new_signer(&m.provider, &signer, NewSignerBundle { signer: &new_signer, credential_with_key: cwk }, LeafNodeParameters::default())
+                                .ok()?;
+                            let b = bundle.commit().tls_serialize_detached().ok()?;
+                            if what == "same" { new_signer.store(storage).ok()?; } else { let _ = mg.clear_pending_commit(storage); }
+                            b
+                        }
+                        "pathk" => {
+                            let cwk = CredentialWithKey { credential: BasicCredential::new(ident.clone()).into(), signature_key: signer.public().into() };
+                            let bundle = mg.self_update(&m.provider, &signer, LeafNodeParameters::builder().with_credential_with_key(cwk).build()).ok()?;
+                            let b = bundle.commit().tls_serialize_detached().ok()?;
+                            if what != "same" { let _ = mg.clear_pending_commit(storage); }
+                            b
+                        }
+                        "uprop" => {
+                            let cwk = CredentialWithKey { credential: BasicCredential::new(ident.clone()).into(), signature_key: signer.public().into() };
+                            let (msg, pref) = mg.propose_self_update(&m.provider, &signer, LeafNodeParameters::builder().with_credential_with_key(cwk).build()).ok()?;
+                            qp_out = mg.pending_proposals().find(|q| matches!(q.proposal(), openmls::prelude::Proposal::Update(_))).cloned().map(|q| (q, pref.clone()));
+                            let b = msg.tls_serialize_detached().ok()?;
+                            let _ = mg.remove_pending_proposal(storage, &pref);
+                            b
+                        }
+                        "commitref" => {
+                            let (qp, pref) = kept.clone()?;
+                            mg.store_pending_proposal(storage, qp).ok()?;
+                            let res = mg.commit_to_pending_proposals(&m.provider, &signer);
+                            let b = match res { Ok((msg, _, _)) => msg.tls_serialize_detached().ok(), Err(_) => None };
+                            let _ = mg.clear_pending_commit(storage);
+                            let _ = mg.remove_pending_proposal(storage, &pref);
+                            b?
+                        }
+                        _ => return None,
+                    };
+                    let keys = Keys::new(nostr::SecretKey::from_slice(&sec).ok()?);
+                    let content = nostr::nips::nip44::encrypt(keys.secret_key(), &keys.public_key, &bytes, nostr::nips::nip44::Version::default()).ok()?;
+                    let ev = EventBuilder::new(Kind::MlsGroupMessage, content)
+                        .tag(Tag::custom(TagKind::h(), [hex::encode(rec.nostr_group_id)]))
+                        .custom_created_at(Timestamp::from(ts))
+                        .sign_with_keys(&Keys::generate())
+                        .ok()?;
+                    Some((ev, qp_out))
+                })());
+                self.clients[i].mdk = Some(mdk);
+                match r {
+                    Some((ev, qp)) => {
+                        let out = self.push_event(ev);
+                        if let Some(q) = qp {
+                            self.qprops.insert(self.events.len() - 1, q);
+                        }
+                        out
+                    }
+                    None => "err:Craft".into(),
+                }
+            }
             "advupdate" => {
                 // advupdate <i> <tsoff>: member i builds a stand-alone MLS Update PROPOSAL with OpenMLS directly (the MDK
                 // API never sends one), removes it from its own proposal store again, and publishes it like mdk would
@@ -786,7 +899,7 @@ pub fn main(_args: &[String]) -> i32 {
         };
         // fingerprint of the acting client (second token is the client index for client-directed ops)
         let fp = match t[0] {
-            "client" | "kp" | "create" | "welcome" | "accept" | "decline" | "send" | "selfupdate" | "add" | "remove" | "leave" | "data" | "merge" | "clear" | "deliver" | "restart" | "fp" | "advremove" | "advgce" | "advupdate" | "advprop" | "advident" => {
+            "client" | "kp" | "create" | "welcome" | "accept" | "decline" | "send" | "selfupdate" | "add" | "remove" | "leave" | "data" | "merge" | "clear" | "deliver" | "restart" | "fp" | "advremove" | "advgce" | "advupdate" | "advprop" | "advident" | "advid" | "leaves" => {
                 let ci = u(t[1]) as usize;
                 if ci < world.clients.len() && world.clients[ci].mdk.is_some() {
                     catch_unwind(AssertUnwindSafe(|| world.fingerprint(ci))).unwrap_or_else(|_| "fp-panic".into())
